@@ -73,6 +73,16 @@ func VerifH_race() {
 		ctx2 := &verifCtx{done: make(chan struct{})}
 		b = func() { w.other.Pick(balancer.PickInfo{FullMethodName: "/plain", Ctx: ctx2}) }
 		verifAssume(len(w.other.scRefs) > 0)
+	case 9: // a round-robin BIND pick that has to wait for its channel (its context ends) and a state report
+		verifAssume(verifFlag("rr"))
+		n := len(w.gb.scRefList)
+		verifAssume(n >= 1)
+		verifAssume(!w.ready(w.gb.scRefList[uint32(w.gb.rrRefId+1)%uint32(n)])) // the pick waits
+		done := make(chan struct{})
+		close(done) // the call's context has ended: the wait returns at its first select
+		ctx := &verifCtx{hasGcp: true, gcp: &gcpContext{}, done: done}
+		a = func() { w.pk.Pick(balancer.PickInfo{FullMethodName: "/bind", Ctx: ctx}) }
+		b = w.uscOp()
 	case 5, 8: // a pick (5) / a completion (8) and a later resolver update, which may carry a configuration again
 		if verifCase("pair") == 5 {
 			a = w.pickOp("p1")
